@@ -1,11 +1,11 @@
 SPECIFICATION Spec
 CONSTANTS
   PIDS = {256, 257}
-  Period = 2
-  MaxOps = 5
+  Period = 3
+  MaxOps = 7
   Dev = {}
-  LENS = {1, 170, 171, 355}
-  HDRS = {"pts"}
+  LENS = {1, 171, 355}
+  HDRS = {"pts", "none"}
   AFS = {"none", "raipcr", "big"}
   PKTS = {"null", "toobig"}
 INVARIANTS C04_Aligned C04_PUSI C17_TablesFirst C17_Period C17_AutoPid
